@@ -44,7 +44,28 @@ var registry = map[string]*checkEntry{}
 type Checker[A any] struct {
 	prop, name string
 	fn         func(A) *Violation
+	noHistory  bool
+	histAllow  map[string]bool // scalar, string and byte-slice fields whose every value is in the check's domain
+	histCustom func(A) []A     // replaces the generic siblings (checks whose fields are related to each other)
 }
+
+// HistoryFields names the non-Decimal fields of the argument struct that a
+// history walk may vary as well (fields of type D and bool are always varied):
+// only fields of which every value is a legitimate input of the check.
+func (c *Checker[A]) HistoryFields(names ...string) *Checker[A] {
+	c.histAllow = map[string]bool{}
+	for _, n := range names {
+		c.histAllow[n] = true
+	}
+	return c
+}
+
+// HistorySiblings installs a check-specific sibling function.
+func (c *Checker[A]) HistorySiblings(f func(A) []A) *Checker[A] { c.histCustom = f; return c }
+
+// NoHistory switches the history walk (history.go) off for a check whose
+// argument is already a sequence or an enumeration index.
+func (c *Checker[A]) NoHistory() *Checker[A] { c.noHistory = true; return c }
 
 // Register makes fn reachable by name from replay files.
 func Register[A any](prop, name string, fn func(A) *Violation) *Checker[A] {
@@ -61,6 +82,7 @@ func Register[A any](prop, name string, fn func(A) *Violation) *Checker[A] {
 		}
 		return c.Eval(a), nil
 	}}
+	registerHistory(c)
 	return c
 }
 
@@ -217,9 +239,29 @@ func (c *Checker[A]) Run(t *rapid.T, a A) {
 		c.writeFail(a, v)
 		t.Fatalf("%s: %s", c.name, v.Msg)
 	}
+	if c.noHistory {
+		return
+	}
+	// the selector is drawn for every case so that the stream of later draws does not depend on it
+	sel := rapid.Uint64().Draw(t, "historySel")
+	if sel%historyEvery != 0 {
+		return
+	}
+	seq := historySeq(c, a, sel)
+	if len(seq) == 0 {
+		return
+	}
+	S(c.prop, "history-walks").Eval(1)
+	h := histArgs[A]{Seq: seq}
+	if v := c.evalHistory(h); v != nil {
+		writeFailFile(c.prop, c.name+".history", h, v)
+		t.Fatalf("%s.history: %s", c.name, v.Msg)
+	}
 }
 
-func (c *Checker[A]) writeFail(a A, v *Violation) {
+func (c *Checker[A]) writeFail(a A, v *Violation) { writeFailFile(c.prop, c.name, a, v) }
+
+func writeFailFile(prop, name string, a any, v *Violation) {
 	dir := os.Getenv("VERIF_OUT")
 	if dir == "" {
 		return
@@ -228,9 +270,9 @@ func (c *Checker[A]) writeFail(a A, v *Violation) {
 	if err != nil {
 		raw = []byte(`"unmarshalable"`)
 	}
-	rf := ReplayFile{Property: c.prop, Check: c.name, Args: raw, Message: v.Msg}
+	rf := ReplayFile{Property: prop, Check: name, Args: raw, Message: v.Msg}
 	b, _ := json.MarshalIndent(rf, "", " ")
-	_ = os.WriteFile(filepath.Join(dir, "fail-"+c.name+".json"), b, 0o644)
+	_ = os.WriteFile(filepath.Join(dir, "fail-"+name+".json"), b, 0o644)
 }
 
 // ---- tiers, seeds, shards ---------------------------------------------------
